@@ -67,13 +67,15 @@ def fint(x):
 
 LABELS = {"0..n-1": (0, 1), "1..n": (1, 1), "100..": (100, 1), "0,10,20..": (0, 10),
           # labels are labels, not positions: the history is the ROW order, whatever the labels' order
-          "descending": (1000, -1), "shuffled": None}
+          "descending": (1000, -1), "shuffled": None, "countdown": None}
 NEAR_TIE_LEVELS = [0, 1000000, -1000000, 999999, -999999, 1000001, -1000001, 500000, -500000, 499999, -499999]
 
 
 def load_step_labels(n, labels):
     if labels == "shuffled":
         return [(i * 7919 + 13) % 10007 for i in range(n)]          # distinct, neither ascending nor descending
+    if labels == "countdown":
+        return list(range(n - 1, -1, -1))                            # n-1 .. 0 (seeded change C04-m5)
     start, step = LABELS[labels]
     return [start + step * i for i in range(n)]
 
